@@ -33,6 +33,7 @@ def run(ctx):
     ctx.call(N.run_decision_table, "6r")
     ctx.call(N.clean_decision_table, "6c")
     ctx.call(GR.dependency_lookup, "7")
+    ctx.call(GR.identity_forms, "8")
 
 
 NODE = "cartgraph/node.py"
